@@ -77,12 +77,57 @@ func genSplitClients() {
 	m.str("percentOfResult", s.text(pct.Type.Results.List[0].Type), "result type of percentOf")
 
 	dist := s.fn("", "createSplitClientDistributions")
-	m.strs("distributionsBody", s.stmts(dist.Body), "statements of createSplitClientDistributions")
+	var distStmts []string
+	for _, st := range dist.Body.List {
+		if ds, ok := st.(*ast.DeclStmt); ok {
+			if gd, ok := ds.Decl.(*ast.GenDecl); ok { // drop the doc comment of a declaration
+				cp := *gd
+				cp.Doc = nil
+				distStmts = append(distStmts, s.text(&ast.DeclStmt{Decl: &cp}))
+				continue
+			}
+		}
+		distStmts = append(distStmts, s.text(st))
+	}
+	m.strs("distributionsBody", distStmts, "statements of createSplitClientDistributions (comments dropped)")
 	var verbs []string
 	for _, c := range s.calls(dist.Body, "fmt.Sprintf") {
-		verbs = append(verbs, strLit(c.Args[0])+" <- "+s.text(c.Args[1]))
+		var args []string
+		for _, a := range c.Args[1:] {
+			args = append(args, s.text(a))
+		}
+		verbs = append(verbs, strLit(c.Args[0])+" <- "+strings.Join(args, ", "))
 	}
 	m.strs("sprintfCalls", verbs, "format verb and argument of every fmt.Sprintf in createSplitClientDistributions")
+
+	// float64 must not come back into the generator: percentOf is called by tests only, and
+	// createSplitClientDistributions mentions neither float64 nor math.
+	nPercentOf, nFloat := 0, 0
+	for _, d := range s.f.Decls {
+		fd, ok := d.(*ast.FuncDecl)
+		if !ok || fd.Name.Name == "percentOf" || fd.Body == nil {
+			continue
+		}
+		nPercentOf += len(s.calls(fd.Body, "percentOf"))
+	}
+	walk(dist.Body, func(n ast.Node) bool {
+		if id, ok := n.(*ast.Ident); ok && (id.Name == "float64" || id.Name == "float32" || id.Name == "math") {
+			nFloat++
+		}
+		return true
+	})
+	m.nat("percentOfCallsInGenerator", nPercentOf, "calls of percentOf from non-test code of split_clients.go")
+	m.nat("floatMentionsInDistributions", nFloat, "occurrences of float64/float32/math in createSplitClientDistributions")
+	var distConsts []string
+	walk(dist.Body, func(n ast.Node) bool {
+		if gd, ok := n.(*ast.GenDecl); ok && gd.Tok == token.CONST {
+			for _, sp := range gd.Specs {
+				distConsts = append(distConsts, s.text(sp))
+			}
+		}
+		return true
+	})
+	m.strs("distributionsConsts", distConsts, "constants declared in createSplitClientDistributions")
 
 	m.strs("getSplitClientValueBody", s.stmts(s.fn("", "getSplitClientValue").Body), "statements of getSplitClientValue")
 	m.strs("needsSplitBody", s.stmts(s.fn("", "backendGroupNeedsSplit").Body), "statements of backendGroupNeedsSplit")
